@@ -54,6 +54,22 @@ class _EmitHooks(Hooks):
             return ("BAD", s.value)
         return None
 
+    @staticmethod
+    def other_mutation(s: ast.stmt) -> Optional[str]:
+        """element / slice stores, deletions and in-place methods on self.load / self.hour (anything but the append idiom)"""
+        tg = s.targets if isinstance(s, (ast.Assign, ast.Delete)) else ([s.target] if isinstance(s, (ast.AugAssign, ast.AnnAssign)) else [])
+        for t in tg:
+            if isinstance(t, ast.Subscript) and attr_chain(t.value) in ("self.load", "self.hour"):
+                return f"{ast.unparse(t)[:40]} is written in place"
+        if isinstance(s, ast.Expr) and isinstance(s.value, ast.Call):
+            c = s.value
+            f = attr_chain(c.func) or ""
+            if f.rsplit(".", 1)[0] in ("self.load", "self.hour") and f.rsplit(".", 1)[-1] in ("sort", "put", "fill", "resize", "itemset", "partition", "append", "extend", "insert", "pop", "clear", "reverse"):
+                return f"{f}() changes the array in place"
+            if f in ("np.put", "numpy.put", "np.place", "np.copyto", "np.putmask") and c.args and attr_chain(c.args[0]) in ("self.load", "self.hour"):
+                return f"{f}({ast.unparse(c.args[0])}, ..) changes the array in place"
+        return None
+
     def on_stmt(self, s, st: State, eng: Engine):
         c = self.classify(s)
         if c is None:
@@ -189,9 +205,21 @@ def analyse(prog: Program, loop_bound: int = 1) -> MonthAnalysis:
             rel = "="
         else:
             rel = "?"
-        mp = MonthPath(loads, hours, order, nodes, st, ipf, has_cl, has_hl, clamped, rel)
-        mp.n_clamps = n_clamps
-        paths.append(mp)
+        variants = [(st, rel)]
+        if rel == "?" and ipf is not False and len(dd) == 2 and any(o == "LOAD" for o in order):
+            # the code did not separate two of the three orders of the peak days on this path (e.g. a `>=`): the path stands for
+            # both, and what it emits must be right for each - analyse it once per order
+            from ..paths import Cond
+
+            variants = []
+            for sgn in sorted(dd):
+                s2 = st.fork()
+                if s2.assume(Cond("cmp", A["KCL"] - A["KHL"], frozenset(sgn)), True, 0):
+                    variants.append((s2, {"-": "<", "+": ">", "0": "="}[sgn]))
+        for st_v, rel_v in variants:
+            mp = MonthPath(loads, hours, order, nodes, st_v, ipf, has_cl, has_hl, clamped, rel_v)
+            mp.n_clamps = n_clamps
+            paths.append(mp)
     # events before the loop (function level), evaluated straight-line
     pre: List[Tuple[str, object, ast.stmt]] = []
     eng2 = Engine(prog, fi, Hooks())
@@ -352,4 +380,28 @@ def split_minmax(x: Rat, st: State, limit: int = 8):
         out = nxt[:limit]
         if not changed:
             break
+    return out
+
+
+def shape_findings(prog: Program, ma: MonthAnalysis):
+    """writes to self.load / self.hour that are not the append idiom of the month loop, anywhere in the class
+    -> [(key, where, qualname, message)]"""
+    fi = ma.fi
+    out = []
+    for s_ in ma.bad_writes:
+        out.append((norm_stmt(s_), prog.loc(fi, s_), fi.qualname,
+                    "self.load / self.hour is written by something other than the append idiom (the sequence is no longer the concatenation of the emitted pairs)"))
+    for q_, f_ in prog.funcs.items():
+        if f_.module != fi.module or f_.cls != fi.cls:
+            continue
+        for n_ in ast.walk(f_.node):
+            if isinstance(n_, ast.stmt):
+                why_ = _EmitHooks.other_mutation(n_)
+                if why_:
+                    out.append((f"{f_.qualname}:inplace:{norm_stmt(n_)[:80]}", prog.loc(f_, n_), f_.qualname,
+                                f"{why_}: the sequence is no longer the concatenation of the pairs the month loop emits ('{norm_stmt(n_)[:80]}')"))
+            if f_ is not fi and f_.name != "__init__" and isinstance(n_, (ast.Assign, ast.AugAssign)):
+                for t in (n_.targets if isinstance(n_, ast.Assign) else [n_.target]):
+                    if attr_chain(t) in ("self.load", "self.hour"):
+                        out.append((f"{f_.qualname}:{norm_stmt(n_)}", prog.loc(f_, n_), f_.qualname, "self.load / self.hour is written outside process_month_loads"))
     return out
